@@ -45,6 +45,15 @@ Fixpoint chain_read (ls : list layer) (depth : nat) (off n : Z) : res (list lsrc
        end) p
   end.
 
+(* a layer whose image is shorter than the chain above it (an overlay created larger than its base): the stream of the
+   short image ends at sz, the layer above zero-extends what it gets (`.read(n).ljust(n, b"\0")`) *)
+Definition clip_layer (sz : Z) (l : layer) : layer :=
+  {| l_read := fun off n =>
+       let m := Z.min n (sz - off) in
+       if m <=? 0 then Ok [SZero n]
+       else do p <- l_read l off m; Ok (if m <? n then p ++ [SZero (n - m)] else p);
+     l_src := fun o => if o <? sz then l_src l o else Zero |}.
+
 (* ---------- specification: topmost layer that holds the byte ---------- *)
 Fixpoint chain_src (ls : list layer) (depth : nat) (o : Z) : lsrc :=
   match ls with
